@@ -57,7 +57,9 @@ def r1(rr, repo):
             ok = isinstance(lam, ast.Lambda)
             rr.ob('a callable result is wrapped, not called, by process_frames', ok and not any(e.kind == 'call' and e.term == R for e in p.events), mod, fn, witness=w, key='callable-wrapped')
             if ok:
-                _check_wrapper(rr, repo, mod, fn, lam, R)
+                rets = [e for e in p.events if e.kind == 'return']
+                orig = rets[-1].node.value if rets and isinstance(getattr(rets[-1].node, 'value', None), ast.Lambda) else lam
+                _check_wrapper(rr, repo, mod, fn, orig, R, p)
         elif call is False and isfr is True:
             seen.add('frame')
             rr.ob("a lone Frame becomes {'main': frame}", ret.replace('"', "'") == f"{{'main': {R}}}", mod, fn, witness=w, key='frame')
@@ -70,9 +72,11 @@ def r1(rr, repo):
     rr.floor('result kinds distinguished (None, callable, Frame, dict)', len(seen), 4, mod, fn)
 
 
-def _check_wrapper(rr, repo, mod, fn, lam: ast.Lambda, R: str):
+def _check_wrapper(rr, repo, mod, fn, lam: ast.Lambda, R: str, outer: Path):
     ev = Evaluator(repo, mod)
-    ps = ev.run([ast.Return(value=lam.body, lineno=getattr(lam, 'lineno', 0), col_offset=0)])
+    start = Path()
+    start.env.update({k: v for k, v in outer.env.items() if isinstance(v, ast.AST)})   # the closure's view of the locals
+    ps = ev.run([ast.Return(value=lam.body, lineno=getattr(lam, 'lineno', 0), col_offset=0)], start)
     D = f'{R}()'
     kinds = set()
     for p in ps:
